@@ -12,8 +12,19 @@ Lattice explorer over (burn interval x step grid x thrust kind x dynamics x orbi
   intervals to the step grid and to each other, in every queue order - what ``Celestial._prepEvents`` /
   ``_applyEvents`` do with the single ``finite_thrust`` slot when the queue holds an active and a waiting event.
 
+* a finite event and ANOTHER event of the same agent at one instant (``protocol_ci`` / ``protocol_ci2`` /
+  ``coincide`` / ``columns2`` / ``scenario_ci``): an impulse exactly at the burn start, exactly at the burn end, inside
+  and outside the burn, in both list orders, through ``Celestial.propagate`` in one call, split over step-sized calls and
+  through ``Celestial.propagateBulk`` (also: two-burn schedules through ``propagateBulk``, ``bulk_sched2``) - what
+  ``propagate`` / ``propagateBulk`` do when the solver reports only the first of several terminal events found at one
+  time, and what ``propagateBulk`` does with more than one scheduled event.
+* degenerate burns (``degenerate`` / ``protocol_z2`` / extra points of ``protocol``, ``protocol_ci``, ``scenario``): a
+  finite event of zero length (end == start, the default of a configuration that omits ``end_time``) delivers nothing;
+  a 0.5 s burn delivers 0.5 s of thrust.
+
 Oracle: ``verif.oracles.c15_thrust`` - own thrust laws, own DOP853 integration (rtol 1e-11) of the library's gravity
-derivative (no thrust armed) with the thrust term added only for t in [t_start, t_end].
+derivative (no thrust armed) with the thrust term added only for t in [t_start, t_end] and impulses added once, at their
+instant, in their frame.
 """
 from __future__ import annotations
 
@@ -88,9 +99,51 @@ RULE = (
     "two-event case names the relation of the intervals: first_active_second_queued (the first is in progress at a "
     "step boundary at which the second is already in the queue, waiting), second_starts_in_step_first_ends, "
     "touching_on_grid / touching_off_grid (back-to-back), gap. "
+    "A FINITE EVENT AND ANOTHER EVENT OF THE SAME AGENT AT ONE INSTANT (the solver reports only the first of several "
+    "terminal events found at one time), and propagateBulk with several events: (iv) protocol_ci - on the gravity-free "
+    "harness, every (t_start, t_end) pair of the 15 protocol instants x an ECI impulse at every one of the 15 instants "
+    "(at the start, at the end, inside, outside; on and off the call boundaries) x both list orders (impulse ahead of / "
+    "behind the burn) x {Celestial.propagate in one call [0,180], three step-sized calls with the list delivered and "
+    "pruned as the propagation job does, Celestial.propagateBulk with the call boundaries as output times}; closed-form "
+    "velocity at every output time (1e-12 km/s) and final position; (v) protocol_ci2 - every chain of 2 ECI burns over "
+    "6 instants (35 chains, back-to-back included) x an ECI impulse at each of the 6 instants (up to three events at "
+    "one instant) x all 6 orders of the three-event list x {calls given the whole list, calls given the step's window, "
+    "propagateBulk}; protocol_ci3 - every interval over the same 6 instants x TWO ECI impulses at every pair of "
+    "instants (equal included: burn end + two impulses at one instant) x all 6 list orders x the three modes; "
+    "bulk_single - every agent_direct case and every protocol interval (ONE burn, which may start and end between two "
+    "consecutive output times) through ONE propagateBulk call with the step boundaries as output times; "
+    "(vi) coincide - every thrust kind {eci, ntw burn; spiral, plane-change maneuver} x 5 intervals "
+    "(start / end on and off the step grid, across a boundary, inside one step) x impulse {at t_start, at t_end, at "
+    "the middle, on the step boundary inside the burn, after the burn} x impulse frame {ECI, NTW} x both list orders x "
+    "{propagate in one call, a real TargetAgent stepped as the propagation job does, propagateBulk with the step "
+    "boundaries as output times} on TwoBody (every step size) and SpecialPerturbations (quick: dt=60), compared at "
+    "every output time with the independent integration (thrust only inside [t_start, t_end], the delta-v added once, "
+    "at its instant, in the frame of the state it finds); delivered burn delta-v = that of the reference burn "
+    "(acceleration x (t_end - t_start) plus the tidal term); (vii) columns2 - a (6,2) state, ntw burn / plane-change "
+    "maneuver + ECI impulse at its start / end / inside, both orders, stepwise propagate and propagateBulk, each column "
+    "against its own reference; (viii) bulk_sched2 - every two-event schedule of agent_sched2, in the same list "
+    "order, through ONE propagateBulk call with the step boundaries as output times; (ix) scenario_ci - 8 patterns "
+    "(impulse at the burn end / start on and off the grid, burn inside one step, across two boundaries, impulse inside) "
+    "x both orders of the two events in the config x both dynamics through a real truth-only Scenario (finite_burn / "
+    "finite_maneuver event + impulse event of the same target configured at the same datetime; the coincidence must "
+    "survive the Julian-date rounding). A mismatch is labelled coincident_impulse_dropped / thrust_runs_to_step_end "
+    "(= to the end of the call) / no_thrust_applied / start_at_previous_end_missed / error / unexplained. "
     "non-trivial = the burn start or end is not on a step boundary or the burn spans >= 2 steps (trajectory cases); "
-    "every two/three-event case; both hemispheres / non-circular states (thrust laws); distinct by construction "
-    "(lattice points)."
+    "every two/three-event case; every burn+impulse case whose impulse is not outside the burn (protocol_ci) / every "
+    "coincide, columns2, bulk case; both hemispheres / non-circular states (thrust laws); distinct by construction "
+    "(lattice points). "
+    "DEGENERATE BURNS: a finite event of ZERO length (end_time == start_time - what a configuration that omits "
+    "end_time asks for) delivers nothing, a 0.5 s one delivers acceleration x 0.5 s: (x) protocol - besides the 105 "
+    "pairs, a zero-length burn at each of the 15 instants and five 0.5 s burns (ending on / starting on / straddling / "
+    "off a call boundary), each through three calls, ONE propagate call [0,180] and propagateBulk; protocol_ci - a "
+    "zero-length burn at 5 instants x an impulse at every instant (start root, end root and impulse at one instant) x "
+    "orders x modes; protocol_z2 - every interval over 6 instants + a zero-length burn at every instant not strictly "
+    "inside it (at its start, at its end, apart) x both list orders x three modes; (xi) degenerate - every thrust kind x "
+    "the dynamics / step sizes of coincide x {zero length off the grid, on the grid, at a fractional second; 0.5 s off the "
+    "grid, ending on it, starting on it} x {real TargetAgent with the event queued directly, through the real event row "
+    "of a configuration WITHOUT end_time, propagate in one call, propagateBulk}; (xii) scenario - the pattern set "
+    "includes a zero-length event off / on the grid (event config without end_time) and a 0.5 s burn, every kind, both "
+    "dynamics. Regions of zero-length cases are named zero_length_on_grid / zero_length_off_grid; all are non-trivial."
 )
 ASSUMPTIONS = [
     "the library's gravity derivative (_differentialEquation with no thrust armed) is the subject of other properties "
@@ -101,8 +154,18 @@ ASSUMPTIONS = [
     "enumerated; burns that touch (the later starts at the instant the earlier ends) are not overlapping and are",
     "the order of an agent's propagate_event_queue / of the scheduled_events list is not part of the contract: "
     "every order must fly the same trajectory",
+    "an impulse and a finite event of one agent at the same instant commute (the thrust term is bounded; the state is "
+    "continuous across the start / end of a burn), so the reference does not depend on which is applied first; two "
+    "NTW impulses at one instant (which do not commute to second order) are not enumerated here (C01)",
+    "propagateBulk reports at an output time that coincides with an impulse the state AFTER the impulse (the library's "
+    "documented handling of an event on a `times` entry), as propagate(t0, t) does",
+    "an NTW impulse on a multi-column state is defined by the first column only (library design); the 2-column cases "
+    "use ECI impulses",
+    "a finite event whose end_time equals its start_time (EventConfigBase: end_time defaults to start_time) thrusts for "
+    "acceleration x 0 s = nothing; a zero-length event strictly inside another burn of the same agent counts as "
+    "overlapping (outside the design) and is not enumerated",
 ]
-EXPECT_MIN_NONTRIVIAL = 2000
+EXPECT_MIN_NONTRIVIAL = 10000
 
 # ---------------------------------------------------------------------------------------------- tolerances
 # Error sources: library RK45 (rtol 1e-10, atol 1e-12) vs DOP853 (1e-11): measured <= 8e-10 km/s and <= 1.0e-6 km over
@@ -305,10 +368,16 @@ def items(tier, seed):
             for chunk in fw.chunked(rels, 2):
                 out.append(("scenario2", model, dt, seed, chunk))
     # a finite event and an impulse of the same agent at one instant (and propagateBulk with several events)
-    for chunk in fw.chunked([[a, b] for i, a in enumerate(PROTO_TIMES) for b in PROTO_TIMES[i + 1:]], 15):
+    ci_pairs = [[a, b] for i, a in enumerate(PROTO_TIMES) for b in PROTO_TIMES[i + 1:]]
+    ci_pairs += [[t, t] for t in PROTO_CI_ZERO]  # a zero-length burn: start root, end root and impulse at one instant
+    for chunk in fw.chunked(ci_pairs, 15):
         out.append(("protocol_ci", seed, chunk))
     for chunk in fw.chunked([[list(iv) for iv in ch] for ch in _chains(PROTO_CI2_TIMES, 2)], 6):
         out.append(("protocol_ci2", seed, chunk))
+    for chunk in fw.chunked([[a, b] for i, a in enumerate(PROTO_CI2_TIMES) for b in PROTO_CI2_TIMES[i + 1:]], 3):
+        out.append(("protocol_ci3", seed, chunk))
+    for chunk in fw.chunked([[a, b] for i, a in enumerate(PROTO_CI2_TIMES) for b in PROTO_CI2_TIMES[i + 1:]], 8):
+        out.append(("protocol_z2", seed, chunk))
     for model, dt in _ci_dims(tier):
         for kind in KINDS:
             idxs = list(range(len(_ci_intervals(dt))))
@@ -316,6 +385,8 @@ def items(tier, seed):
             for chunk in fw.chunked(idxs, 1 if model == "special_perturbations" else len(idxs)):
                 out.append(("coincide", model, dt, kind, seed, chunk))
         out.append(("columns2", model, dt, seed))
+        for kind in KINDS:
+            out.append(("degenerate", model, dt, kind, seed))
     for model in MODELS:
         for dt in scen_dts:
             pats = [[i, where, list(iv), ti] for i, (where, iv, ti) in enumerate(_scenario_ci_patterns(dt))]
@@ -332,6 +403,11 @@ def _scenario_patterns(dt):
         (dt + 1, 3 * dt),  # start off, end on the grid
         (dt, 3 * dt + 7),  # start on, end off the grid
         (2 * dt - 1, 2 * dt + 1),  # straddles a boundary
+        # degenerate: zero length (the event config then OMITS end_time: the documented default is start_time) off / on
+        # the grid - nothing is delivered - and a 0.5 s burn
+        (dt + 1, dt + 1),
+        (2 * dt, 2 * dt),
+        (dt + 1, dt + 1.5),
     ]
 
 
@@ -369,6 +445,44 @@ def bounds(tier, seed):
                           "named_schedules": {name: [list(a), list(b)] for name, a, b in _relations(60)},
                           "config_orders": ["AB", "BA"]},
             "relation_histogram_of_lattice": _relation_histogram(dims["sched_lattice_dts"][0], tier == "thorough"),
+        },
+        "coincident_events": {
+            "protocol_ci": {"instants": PROTO_TIMES, "burn_intervals": len(PROTO_TIMES) * (len(PROTO_TIMES) - 1) // 2,
+                            "impulse_instants": len(PROTO_TIMES), "list_orders": CI_ORDERS, "modes": CI_MODES,
+                            "calls": PROTO_CI_CALLS, "impulse_dv_km_s": PROTO_CI_DV,
+                            "velocity_tolerance_km_s": PROTO2_TOL_V},
+            "protocol_ci2": {"instants": PROTO_CI2_TIMES, "chains": len(_chains(PROTO_CI2_TIMES, 2)),
+                             "impulse_instants": len(PROTO_CI2_TIMES), "list_orders": 6, "modes": PROTO_CI2_MODES},
+            "protocol_ci3": {"instants": PROTO_CI2_TIMES, "burn_intervals": 15, "impulse_instant_pairs": 21,
+                             "list_orders": 6, "modes": CI_MODES},
+            "bulk_single": "every agent_direct case (interval x kind x dynamics x orbit) through one propagateBulk call; "
+                           "every protocol interval through propagateBulk on the harness dynamics",
+            "coincide": {"dynamics_x_step": [[MODELS[m], dt] for m, dt in _ci_dims(tier)], "kinds": KINDS,
+                         "intervals": {str(dt): [list(iv) for iv in _ci_intervals(dt)]
+                                       for dt in sorted({dt for _, dt in _ci_dims(tier)})},
+                         "impulse_positions": {str(i): _ci_positions(60, i) for i in range(len(_ci_intervals(60)))},
+                         "impulse_frames": ["eci", "ntw"], "impulse_dv_km_s": CI_DV, "list_orders": CI_ORDERS,
+                         "modes": CI_MODES, "steps": CI_STEPS},
+            "columns2": {"dynamics_x_step": [[MODELS[m], dt] for m, dt in _ci_dims(tier)],
+                         "kinds": ["ntw", "plane_change"], "interval": "[dt+1, 3dt]",
+                         "impulse_at": ["t_start", "t_end", "2dt+7"], "modes": ["split", "bulk"]},
+            "bulk_sched2": "every agent_sched2 schedule and list order through one propagateBulk call",
+            "degenerate_burns": {
+                "protocol_zero_length_at": PROTO_TIMES, "protocol_short": [list(p) for p in PROTO_SHORT],
+                "protocol_modes": ["three_calls", "one_call", "bulk"],
+                "protocol_ci_zero_length_at": PROTO_CI_ZERO,
+                "protocol_z2": {"instants": PROTO_CI2_TIMES, "burn_intervals": 15, "list_orders": 2, "modes": CI_MODES},
+                "degenerate": {"dynamics_x_step": [[MODELS[m], dt] for m, dt in _ci_dims(tier)], "kinds": KINDS,
+                               "intervals": {str(dt): [list(iv) for iv in _degenerate_intervals(dt)]
+                                             for dt in sorted({dt for _, dt in _ci_dims(tier)})},
+                               "modes": DEGEN_MODES, "zero_length_row": "event config without end_time"},
+                "scenario": "patterns (dt+1, dt+1), (2dt, 2dt) [config without end_time], (dt+1, dt+1.5)",
+            },
+            "scenario_ci": {"step_sizes": [60] if tier == "quick" else [60, 300],
+                            "patterns": [[w, list(iv), ti] for w, iv, ti in _scenario_ci_patterns(60)],
+                            "kind_and_impulse_frame": [list(_scenario_ci_kind(i, seed))
+                                                       for i in range(len(_scenario_ci_patterns(60)))],
+                            "config_orders": CI_ORDERS},
         },
         "tolerances": {"velocity_km_s": TOL_V, "position_km": TOL_R, "delivered_dv_km_s": TOL_DV},
     }
@@ -437,6 +551,8 @@ def _event_config(spec, ts, te, start, as_model=False):
         "end_time": start + timedelta(seconds=te),
         "planned": False,
     }
+    if te == ts:  # zero length: as a configuration that omits end_time (the documented default is start_time)
+        del d["end_time"]
     if spec["kind"] in ("eci", "ntw"):
         d.update(event_type="finite_burn", acc_vector=list(spec["acc"]), thrust_frame=spec["kind"])
         return ScheduledFiniteBurnConfig(**d) if as_model else _iso_times(d)
@@ -447,7 +563,8 @@ def _event_config(spec, ts, te, start, as_model=False):
 def _iso_times(d):
     d = dict(d)
     d["start_time"] = scen.iso(d["start_time"])
-    d["end_time"] = scen.iso(d["end_time"])
+    if "end_time" in d:
+        d["end_time"] = scen.iso(d["end_time"])
     return d
 
 
@@ -537,9 +654,28 @@ def _classify(res, sub_prefix, level, model, case, lib_states, times, y0, gravit
     gain_ref = ref[t_f][3:] - coast[t_f][3:]
     gain_lib = np.asarray(lib_states[-1])[3:] - coast[t_f][3:]
     nrm = float(np.linalg.norm(gain_ref))
-    proj = float(gain_lib @ gain_ref / nrm)
     burn_s = sum(te - ts for ts, te, _ in burns_nominal)
     a_dt = sum(_acc_norm(spec) * (te - ts) for ts, te, spec in burns_nominal)
+    if burn_s == 0.0:
+        # a burn of zero length delivers nothing: there is no direction to project on, the whole velocity gained over
+        # the coasting reference is the error (reported as the seconds of thrust it amounts to)
+        got = float(np.linalg.norm(gain_lib))
+        ok_dv = got <= TOL_DV
+        secs = got / max(_acc_norm(spec) for _, _, spec in burns_nominal)
+        res.case(
+            f"{sub_prefix}/delivered_dv",
+            case,
+            ok_dv,
+            nontrivial=nontrivial,
+            signature=f"C15/{level}/delivered_dv/{mname}/{region}/{label if not ok_dv else 'exact'}",
+            observed={"delivered_dv_km_s": got, "equivalent_burn_s": secs},
+            expected={"delivered_dv_km_s": 0.0, "burn_s": 0.0, "acceleration_x_duration": 0.0},
+            outcome=f"{label}:{secs:+.1f}s" if not ok_dv else "exact",
+            item=item,
+        )
+        res.observe(np.asarray(lib_states[-1]), wv, wr, got)
+        return ok, label, end_eff, explained_states
+    proj = float(gain_lib @ gain_ref / nrm)
     ok_dv = abs(proj - nrm) <= TOL_DV
     res.case(
         f"{sub_prefix}/delivered_dv",
@@ -650,12 +786,37 @@ def _run_agent(res, item):
                      outcome="error", item=one)
             continue
         eff_burn = [(eff[0], eff[1], spec)] if eff else [(ts, te, spec)]
+        ref = orc.integrate(gravity, y0, 0.0, times, [(ts, te, spec)])
         _classify(res, f"agent_{mode}", f"agent_{mode}", model, case, lib, times, y0, gravity, [(ts, te, spec)],
-                  eff_burn, dt, item=one, nontrivial=nontriv, coast=coast,
+                  eff_burn, dt, item=one, nontrivial=nontriv, coast=coast, ref=ref,
                   one_step=_inside_one_integrator_step(eff_burn[0][0], eff_burn[0][1]))
         res.states += n_steps + 1
         res.transitions += n_steps
         res.traces += 1
+        if mode != "direct":
+            continue
+        # the same single burn through ONE propagateBulk call with the step boundaries as output times (the burn may
+        # start and end between two consecutive output times): the same states at every output time
+        bcase = dict(case, mode="bulk")
+        del STEP_LOG[:]
+        try:
+            WATCHDOG.reset()
+            out = np.array(world.agent(pos, vel).dynamics.propagateBulk(
+                [ScenarioTime(0.0)] + [ScenarioTime(t) for t in times], y0[:, None].copy(),
+                scheduled_events=[_thrust_obj(spec, ts, te, agent.simulation_id)]), dtype=float)
+            if out.shape != (6, 1, n_steps):
+                raise AssertionError(f"propagateBulk returned shape {out.shape}")
+        except Exception as exc:  # noqa: BLE001
+            res.case("bulk_single/interval", bcase, False, nontrivial=True,
+                     signature=f"C15/bulk_single/interval/{MODELS[model]}/error",
+                     observed=f"{type(exc).__name__}: {exc}"[:300], expected="propagates", outcome="error", item=one)
+            EventStack.logAndFlushEvents()
+            continue
+        EventStack.logAndFlushEvents()
+        _classify(res, "bulk_single", "bulk_single", model, bcase, [out[:, 0, j] for j in range(n_steps)], times, y0,
+                  gravity, [(ts, te, spec)], [(ts, te, spec)], times[-1], item=one, nontrivial=True, coast=coast, ref=ref,
+                  region="between_output_times" if np.ceil(te / dt) - np.floor(ts / dt) <= 1 and not _on_grid(ts, dt)
+                  and not _on_grid(te, dt) else "end_on_output_time" if _on_grid(te, dt) else "end_off_output_time")
 
 
 def _run_epoch_start(res, item):
@@ -808,7 +969,9 @@ def _run_scenario(res, item):
         one = ("scenario", model, dt, kind, orbit, seed, [[ts, te]])
         case = {"model": MODELS[model], "dt": dt, "kind": kind, "orbit": orbit, "mode": "scenario", "t_start": ts,
                 "t_end": te, "start_on_grid": _on_grid(ts, dt), "end_on_grid_nominal": _on_grid(te, dt)}
-        nontriv = (not _on_grid(ts, dt)) or (not _on_grid(te, dt)) or (te - ts) > dt
+        nontriv = (not _on_grid(ts, dt)) or (not _on_grid(te, dt)) or (te - ts) > dt or te == ts
+        if te == ts:
+            case["end_time_in_config"] = "omitted"
         sc = scen.build(cfg)
         agent = sc.target_agents[TARGET_ID]
         y0 = np.array(agent.eci_state, dtype=float)
@@ -832,6 +995,11 @@ def _run_scenario(res, item):
                 if abs(te - t_prev) < 1e-4:  # end within Julian-date rounding of the pruning time
                     allowed = {0, 1}
                     res.either_way += 1
+                elif te == ts and abs(ts - (t_prev + dt)) < 1e-4:
+                    # a zero-length event within Julian-date rounding of the end of the step's event window: handed
+                    # over in this step or in the next one
+                    allowed = {0, 1}
+                    res.either_way += 1
                 else:
                     allowed = {1} if (ts <= t_prev + dt and te > t_prev) else {0}
                 res.case("scenario/queue_after_prune", dict(case, t=t_prev),
@@ -851,7 +1019,12 @@ def _run_scenario(res, item):
                  expected=[[ts, te]], item=one)
         eff = [(s, e, spec) for s, e in sorted(seen)][:1] or [(ts, te, spec)]
         _classify(res, "scenario", "scenario", model, case, lib, times, y0, gravity, [(ts, te, spec)], eff, dt, item=one,
-                  nontrivial=nontriv)
+                  nontrivial=nontriv,
+                  region=f"zero_length_{'on' if _on_grid(ts, dt) else 'off'}_grid" if te == ts else None)
+        if te == ts:
+            res.case("scenario/zero_length_row", case, all(s_ == e_ for s_, e_ in seen), nontrivial=True,
+                     signature="C15/scenario/zero_length_row", observed=sorted(seen),
+                     expected="end_time == start_time", item=one)
         # TruthEphemeris rows carry the same states
         rows = sorted(sc.database.getData(Query(TruthEphemeris).filter(TruthEphemeris.agent_id == TARGET_ID)),
                       key=lambda r: r.julian_date)
@@ -1097,6 +1270,17 @@ class _FreeFlight(_celestial.Celestial):
 PROTO_TIMES = [0.5, 30.0, 59.0, 60.0, 61.0, 75.0, 90.0, 110.0, 119.0, 119.5, 120.0, 121.0, 150.0, 180.0, 185.0]
 
 
+PROTO_SHORT = [(30.0, 30.5), (59.5, 60.0), (60.0, 60.5), (90.25, 90.75), (119.75, 120.25)]  # 0.5 s burns
+
+
+def _proto_pairs():
+    """Every (t_start, t_end) pair of PROTO_TIMES, then the degenerate burns: one of ZERO length (end == start, what a
+    configuration that omits end_time asks for: it delivers nothing) at every instant, and 0.5 s burns that end on /
+    start on / straddle / avoid a call boundary."""
+    out = [(a, b) for i, a in enumerate(PROTO_TIMES) for b in PROTO_TIMES[i + 1:]]
+    return out + [(t, t) for t in PROTO_TIMES] + list(PROTO_SHORT)
+
+
 def _overlap(a0, a1, b0, b1):
     return max(0.0, min(a1, b1) - max(a0, b0))
 
@@ -1110,8 +1294,8 @@ def _run_protocol(res, item):
     func = partial(eciBurn, acc_vector=acc)
     y0 = np.array([7000.0, -200.0, 350.0, 1.0, -2.0, 0.5])
     dyn = _FreeFlight()
-    for i, ts in enumerate(PROTO_TIMES):
-        for te in PROTO_TIMES[i + 1:]:
+    for ts, te in _proto_pairs():
+        if True:
             case = {"t_start": ts, "t_end": te, "dt": dt, "start_on_grid": _on_grid(ts, dt), "end_on_grid": _on_grid(te, dt)}
             state = y0.copy()
             del STEP_LOG[:]
@@ -1135,14 +1319,18 @@ def _run_protocol(res, item):
             tol = 1e-8
             ok = abs(on - want) <= tol
             region = "end_on_grid" if _on_grid(te, dt) else "end_off_grid"
+            if te == ts:
+                region = "zero_length_on_grid" if _on_grid(te, dt) else "zero_length_off_grid"
             label = "exact"
             if not ok:
                 label = "unexplained"
-                if region == "end_off_grid" and abs(on - _overlap(ts, _next_grid_after(te, dt), 0.0, 180.0)) <= tol:
+                if not _on_grid(te, dt) and abs(on - _overlap(ts, _next_grid_after(te, dt), 0.0, 180.0)) <= tol:
                     label = "thrust_runs_to_step_end"
+                elif te == ts and abs(on - _overlap(ts, ts + dt, 0.0, 180.0)) <= tol:
+                    label = "thrust_runs_to_step_end"  # on the grid: through the whole call that starts there
                 elif region == "end_on_grid" and abs(on) <= tol and _inside_one_integrator_step(ts, te):
                     label = "burn_inside_one_integrator_step_skipped"
-            nontriv = (not _on_grid(ts, dt)) or (not _on_grid(te, dt)) or te - ts > dt
+            nontriv = (not _on_grid(ts, dt)) or (not _on_grid(te, dt)) or te - ts > dt or te == ts
             res.case("protocol/on_time", case, ok, nontrivial=nontriv,
                      signature=f"C15/protocol/on_time/FreeFlight/{region}/{label}",
                      observed={"thrust_seconds": on}, expected={"thrust_seconds": want}, outcome=label, item=item)
@@ -1154,6 +1342,39 @@ def _run_protocol(res, item):
                 res.case("protocol/position", case, fw.maxabs(state[:3], want_r) <= 1e-8, nontrivial=nontriv,
                          signature="C15/protocol/position", observed=state[:3], expected=want_r, item=item)
             res.observe(state, on)
+            # the same burn through ONE propagate call [0, 180] (no call boundary at any instant of the alphabet)
+            ocase = dict(case, mode="one_call")
+            try:
+                got = _ff_fly(dyn, y0, lambda: [ScheduledFiniteBurn(ScenarioTime(ts), ScenarioTime(te), func, 1)],
+                              "one_call", dt, 3)
+                on1 = float((got[180.0][3:] - y0[3:]) @ acc / (acc @ acc))
+                lab1 = "exact" if abs(on1 - want) <= tol else \
+                    "thrust_runs_to_step_end" if abs(on1 - _overlap(ts, 180.0, 0.0, 180.0)) <= tol else "unexplained"
+                res.case("protocol/one_call_on_time", ocase, abs(on1 - want) <= tol, nontrivial=True,
+                         signature=f"C15/protocol_one_call/on_time/FreeFlight/{region}/{lab1}",
+                         observed={"thrust_seconds": on1}, expected={"thrust_seconds": want}, outcome=lab1, item=item)
+                res.observe(on1)
+            except Exception as exc:  # noqa: BLE001
+                res.case("protocol/one_call_on_time", ocase, False, nontrivial=True,
+                         signature=f"C15/protocol_one_call/on_time/FreeFlight/{region}/error",
+                         observed=f"{type(exc).__name__}: {exc}"[:300], item=item)
+            # the same burn through ONE propagateBulk call, output times 60, 120, 180: velocity at every output time
+            bcase = dict(case, mode="bulk")
+            try:
+                got = _ff_fly(dyn, y0, lambda: [ScheduledFiniteBurn(ScenarioTime(ts), ScenarioTime(te), func, 1)], "bulk",
+                              dt, 3)
+            except Exception as exc:  # noqa: BLE001
+                res.case("protocol/bulk_on_time", bcase, False, nontrivial=True,
+                         signature=f"C15/protocol_bulk/on_time/FreeFlight/{region}/error",
+                         observed=f"{type(exc).__name__}: {exc}"[:300], item=item)
+                continue
+            err_v = max(fw.maxabs(y[3:], y0[3:] + acc * _overlap(ts, te, 0.0, t)) for t, y in got.items())
+            res.case("protocol/bulk_on_time", bcase, err_v <= PROTO2_TOL_V, nontrivial=True,
+                     signature=f"C15/protocol_bulk/on_time/FreeFlight/{region}/"
+                               f"{'exact' if err_v <= PROTO2_TOL_V else 'unexplained'}",
+                     observed={"max_dv_km_s": err_v, "equivalent_thrust_s": err_v / float(np.max(np.abs(acc)))},
+                     expected={"max_dv_km_s": f"<= {PROTO2_TOL_V}"}, item=item)
+            res.observe(got[180.0], err_v)
     EventStack.logAndFlushEvents()
 
 # ---------------------------------------------------------------------------------------------- two-event schedules
@@ -1781,6 +2002,7 @@ def _run_coincide(res, item):
 # ---- the same on the gravity-free harness dynamics, exhaustively, closed-form oracle
 PROTO_CI_DV = [1.0e-3, -2.0e-3, 0.5e-3]
 PROTO_CI_CALLS = 3  # [0,60], [60,120], [120,180]
+PROTO_CI_ZERO = [30.0, 60.0, 61.0, 119.5, 120.0]  # instants of the zero-length burns flown together with an impulse
 
 
 def _ff_state(y0, burns, imps, t):
@@ -1852,6 +2074,8 @@ def _run_protocol_ci(res, item):
         for ti in PROTO_TIMES:
             where = "at_start" if ti == ts else "at_end" if ti == te else "inside" if ts < ti < te else "outside"
             region = _ci_region(where, ti, dt)
+            if te == ts:
+                region = f"zero_length_{'on' if _on_grid(ts, dt) else 'off'}_grid/{region}"
             for order in CI_ORDERS:
                 def make(order=order, ti=ti):
                     evs = [ScheduledECIImpulse(ScenarioTime(ti), np.array(dv), 1), _proto2_event(ts, te, spec)]
@@ -1887,7 +2111,7 @@ def _run_protocol_ci(res, item):
                     v_end = got[t_final][3:]
                     acc = np.array(spec["acc"])
                     on = float((v_end - y0[3:] - (np.array(dv) if ti <= t_final else 0.0)) @ acc / (acc @ acc))
-                    res.case("protocol_ci/velocity", case, ok, nontrivial=where != "outside",
+                    res.case("protocol_ci/velocity", case, ok, nontrivial=where != "outside" or te == ts,
                              signature=f"C15/protocol_ci_{mode}/velocity/FreeFlight/{region}/{label}",
                              observed={"max_dv_km_s": err_v, "thrust_seconds": on},
                              expected={"max_dv_km_s": f"<= {PROTO2_TOL_V}", "thrust_seconds": _overlap(ts, te, 0.0, t_final)},
@@ -1896,7 +2120,7 @@ def _run_protocol_ci(res, item):
                         # r' = v with v piecewise linear: integrated exactly by the method (and by its interpolant)
                         want_r = _ff_state(y0, burns, [(ti, dv)], t_final)[0]
                         res.case("protocol_ci/position", case, fw.maxabs(got[t_final][:3], want_r) <= 1e-8,
-                                 nontrivial=where != "outside", signature=f"C15/protocol_ci_{mode}/position",
+                                 nontrivial=where != "outside" or te == ts, signature=f"C15/protocol_ci_{mode}/position",
                                  observed=got[t_final][:3], expected=want_r, item=one)
                     res.observe(got[t_final], err_v)
         EventStack.logAndFlushEvents()
@@ -1966,6 +2190,117 @@ def _run_protocol_ci2(res, item):
                              observed={"max_dv_km_s": err_v, "equivalent_thrust_s": err_v / 1e-5},
                              expected={"max_dv_km_s": f"<= {PROTO2_TOL_V}"}, outcome=label, item=one)
                     res.observe(got[PROTO_CI_CALLS * dt], err_v)
+        EventStack.logAndFlushEvents()
+
+
+def _run_protocol_ci3(res, item):
+    """One ECI burn + TWO ECI impulses (at one instant or at two) on the gravity-free harness - up to three events at
+    one instant, two of them impulses - in every order of the three-event list."""
+    _, seed, intervals = item
+    dt = 60.0
+    t_final = PROTO_CI_CALLS * dt
+    spec = {"kind": "eci", "acc": _spec("eci", seed)["acc"]}
+    sgn = -1.0 if seed % 2 else 1.0
+    dvs = [[sgn * x for x in PROTO_CI_DV], [0.7e-3, 0.4e-3, -1.5e-3 * sgn]]
+    y0 = np.array([7000.0, -200.0, 350.0, 1.0, -2.0, 0.5])
+    dyn = _FreeFlight()
+    for ts, te in intervals:
+        ts, te = float(ts), float(te)
+        burns = [(ts, te, spec)]
+        for i1, t1 in enumerate(PROTO_CI2_TIMES):
+            for t2 in PROTO_CI2_TIMES[i1:]:
+                imps = [(t1, dvs[0]), (t2, dvs[1])]
+                n_at = {t: sum(1 for x in (ts, te, t1, t2) if x == t) for t in (t1, t2)}
+                most = max(n_at.values())
+                region = f"{most}_events_at_one_instant"
+                for perm in _permutations(3):
+                    def make(perm=perm, t1=t1, t2=t2):
+                        objs = [_proto2_event(ts, te, spec), ScheduledECIImpulse(ScenarioTime(t1), np.array(dvs[0]), 1),
+                                ScheduledECIImpulse(ScenarioTime(t2), np.array(dvs[1]), 1)]
+                        return [objs[i] for i in perm]
+
+                    for mode in CI_MODES:
+                        one = ("protocol_ci3", seed, [[ts, te]])
+                        case = {"t_start": ts, "t_end": te, "impulses_at": [t1, t2], "list_order": list(perm),
+                                "mode": mode, "dt": dt, "most_events_at_one_instant": most}
+                        try:
+                            got = _ff_fly(dyn, y0, make, mode, dt, PROTO_CI_CALLS)
+                        except Exception as exc:  # noqa: BLE001
+                            res.case("protocol_ci3/velocity", case, False, nontrivial=True,
+                                     signature=f"C15/protocol_ci3_{mode}/velocity/FreeFlight/impulse_pair/{region}/error",
+                                     observed=f"{type(exc).__name__}: {exc}"[:300], outcome="error", item=one)
+                            continue
+
+                        def worst(hb, hi, got=got):
+                            return max(fw.maxabs(y[3:], _ff_state(y0, hb, hi, t)[1]) for t, y in got.items())
+
+                        err_v = worst(burns, imps)
+                        ok = err_v <= PROTO2_TOL_V
+                        label = "exact"
+                        if not ok:
+                            label = "unexplained"
+                            call_end = _next_grid_after(te, dt) if mode == "split" else t_final
+                            if any(worst(burns, sub) <= PROTO2_TOL_V for sub in ([], imps[:1], imps[1:])):
+                                label = "coincident_impulse_dropped"
+                            elif worst([(ts, call_end, spec)], imps) <= PROTO2_TOL_V:
+                                label = "thrust_runs_to_call_end"
+                        res.case("protocol_ci3/velocity", case, ok, nontrivial=most > 1,
+                                 signature=f"C15/protocol_ci3_{mode}/velocity/FreeFlight/impulse_pair/{region}/{label}",
+                                 observed={"max_dv_km_s": err_v, "equivalent_thrust_s": err_v / 1e-5},
+                                 expected={"max_dv_km_s": f"<= {PROTO2_TOL_V}"}, outcome=label, item=one)
+                        res.observe(got[t_final], err_v)
+        EventStack.logAndFlushEvents()
+
+
+def _run_protocol_z2(res, item):
+    """One ECI burn + a ZERO-LENGTH ECI burn at an instant that is not strictly inside it (at its start, at its end,
+    before, after): the start and end roots of the zero-length event coincide with each other and possibly with a
+    root of the other burn; it must deliver nothing and must not disturb the other burn; both list orders."""
+    _, seed, intervals = item
+    dt = 60.0
+    t_final = PROTO_CI_CALLS * dt
+    specs = _proto2_specs(("eci", "eci"), seed)
+    y0 = np.array([7000.0, -200.0, 350.0, 1.0, -2.0, 0.5])
+    dyn = _FreeFlight()
+    for ts, te in intervals:
+        ts, te = float(ts), float(te)
+        burns = [(ts, te, specs[0])]
+        for tz in [t for t in PROTO_CI2_TIMES if not ts < t < te]:
+            where = "at_start" if tz == ts else "at_end" if tz == te else "apart"
+            region = f"zero_length_{'on' if _on_grid(tz, dt) else 'off'}_grid/{where}_of_other_burn"
+            for order in ("zero_first", "burn_first"):
+                def make(order=order, tz=tz):
+                    evs = [_proto2_event(tz, tz, specs[1]), _proto2_event(ts, te, specs[0])]
+                    return evs if order == "zero_first" else evs[::-1]
+
+                for mode in CI_MODES:
+                    one = ("protocol_z2", seed, [[ts, te]])
+                    case = {"t_start": ts, "t_end": te, "zero_length_at": tz, "relation": where, "list_order": order,
+                            "mode": mode, "dt": dt}
+                    try:
+                        got = _ff_fly(dyn, y0, make, mode, dt, PROTO_CI_CALLS)
+                    except Exception as exc:  # noqa: BLE001
+                        res.case("protocol_z2/velocity", case, False, nontrivial=True,
+                                 signature=f"C15/protocol_z2_{mode}/velocity/FreeFlight/{region}/error",
+                                 observed=f"{type(exc).__name__}: {exc}"[:300], outcome="error", item=one)
+                        continue
+
+                    def worst(hb, got=got):
+                        return max(fw.maxabs(y[3:], _ff_state(y0, hb, [], t)[1]) for t, y in got.items())
+
+                    err_v = worst(burns)
+                    ok = err_v <= PROTO2_TOL_V
+                    label = "exact"
+                    if not ok:
+                        call_end = _next_grid_after(tz, dt) if mode == "split" and not _on_grid(tz, dt) else \
+                            (tz + dt if mode == "split" else t_final)
+                        label = "thrust_runs_to_step_end" if worst(burns + [(tz, call_end, specs[1])]) <= PROTO2_TOL_V \
+                            else "no_thrust_applied" if worst([]) <= PROTO2_TOL_V else "unexplained"
+                    res.case("protocol_z2/velocity", case, ok, nontrivial=True,
+                             signature=f"C15/protocol_z2_{mode}/velocity/FreeFlight/{region}/{label}",
+                             observed={"max_dv_km_s": err_v, "equivalent_thrust_s": err_v / 1e-5},
+                             expected={"max_dv_km_s": f"<= {PROTO2_TOL_V}"}, outcome=label, item=one)
+                    res.observe(got[t_final], err_v)
         EventStack.logAndFlushEvents()
 
 
@@ -2076,9 +2411,9 @@ def _run_scenario_ci(res, item):
         pos, vel = _orbit("up" if kind != "plane_change" else "down", dt, seed)
         n_steps = int(np.ceil(te / dt)) + 1
         times = [float((j + 1) * dt) for j in range(n_steps)]
-        burns, imps = [(ts, te, spec)], [(ti, dv, frame)]
+        burns = [(ts, te, spec)]
         region = _ci_region(where, ti, dt)
-        ref = coast = None
+        ref = coast = ref_key = None
         for cfg_order in CI_ORDERS:
             evs = [_impulse_config(ti, dv, frame, start), _event_config(spec, ts, te, start)]
             if cfg_order == "burn_first":
@@ -2139,14 +2474,122 @@ def _run_scenario_ci(res, item):
             res.case("scenario_ci/coincidence_survives_rounding", case, coincident, nontrivial=anchor is not None,
                      signature="C15/scenario_ci/coincidence_survives_rounding",
                      observed={"impulse": seen_imp[0], "burn": list(seen_burn[0])}, item=one)
-            if ref is None:
-                ref = orc.integrate(gravity, y0, 0.0, times, burns, imps)
-                coast = orc.integrate(gravity, y0, 0.0, times, [], imps)
+            # The impulse is placed at the time the agent was given (the configured datetime through a Julian date, off
+            # by <= 4e-5 s): an impulse configured on a step boundary may land just after it and then belongs to the
+            # next step - the state reported AT the boundary differs by the whole delta-v, which no tolerance absorbs.
+            # The burn keeps its configured times (a 4e-5 s shift of a 1e-5 km/s^2 thrust is 4e-10 km/s, see TOL_V).
+            imps_eff = [(seen_imp[0], dv, frame)]
+            if ref is None or ref_key != seen_imp[0]:
+                ref_key = seen_imp[0]
+                ref = orc.integrate(gravity, y0, 0.0, times, burns, imps_eff)
+                coast = orc.integrate(gravity, y0, 0.0, times, [], imps_eff)
             _classify(res, "scenario_ci", "scenario_ci", model, case, lib, times, y0, gravity, burns, eff, dt,
-                      impulses=imps, item=one, nontrivial=coincident, coast=coast, region=region, ref=ref,
+                      impulses=imps_eff, item=one, nontrivial=coincident, coast=coast, region=region, ref=ref,
                       extra_hyp=[("coincident_impulse_dropped", burns, [])])
             res.states += n_steps + 1
             res.transitions += n_steps
+            res.traces += 1
+
+
+# ---------------------------------------------------------------------------------------------- degenerate burns
+# A finite event of ZERO length (end_time == start_time: what a configuration that omits end_time asks for) delivers
+# nothing; a very short one (0.5 s) delivers acceleration x 0.5 s.  Every thrust kind x both dynamics x instants on and
+# off the step grid x four ways of flying it: a real TargetAgent stepped as the propagation job does with the event
+# queued directly ("split") and through the real event row built from a configuration WITHOUT end_time ("row"),
+# Celestial.propagate in one call, Celestial.propagateBulk.
+DEGEN_MODES = ["split", "row", "one_call", "bulk"]
+
+
+def _degenerate_intervals(dt):
+    """[(class, t_start, t_end)]"""
+    d = float(dt)
+    return [
+        ("zero_length", d + 1.0, d + 1.0),  # off the grid
+        ("zero_length", 2.0 * d, 2.0 * d),  # on the grid
+        ("zero_length", d + dt // 2 + 0.25, d + dt // 2 + 0.25),  # off the grid, fractional second
+        ("short", d + 1.0, d + 1.5),  # off the grid
+        ("short", 2.0 * d - 0.5, 2.0 * d),  # ends on the grid
+        ("short", 2.0 * d, 2.0 * d + 0.5),  # starts on the grid
+    ]
+
+
+def _degenerate_region(cls, ts, te, dt):
+    if cls == "zero_length":
+        return f"zero_length_{'on' if _on_grid(ts, dt) else 'off'}_grid"
+    return "short_end_on_grid" if _on_grid(te, dt) else "short_start_on_grid" if _on_grid(ts, dt) else "short_off_grid"
+
+
+def _run_degenerate(res, item):
+    _, model, dt, kind, seed = item
+    start = _epoch(seed)
+    world = World(model, dt, start, CI_STEPS)
+    spec = _spec(kind, seed)
+    pos, vel = _orbit("up", dt, seed)
+    times = [float((j + 1) * dt) for j in range(CI_STEPS)]
+    t_final = times[-1]
+    probe = world.agent(pos, vel)
+    gravity = world.gravity(probe)
+    y0 = np.array(probe.eci_state, dtype=float)
+    aid = probe.simulation_id
+    coast = orc.integrate(gravity, y0, 0.0, times, [])
+    for cls, ts, te in _degenerate_intervals(dt):
+        burns = [(ts, te, spec)]
+        ref = coast if te == ts else orc.integrate(gravity, y0, 0.0, times, burns)
+        region = _degenerate_region(cls, ts, te, dt)
+        for mode in DEGEN_MODES:
+            case = {"model": MODELS[model], "dt": dt, "kind": kind, "t_start": ts, "t_end": te, "class": cls,
+                    "mode": mode, "start_on_grid": _on_grid(ts, dt), "end_on_grid_nominal": _on_grid(te, dt),
+                    "end_time_in_config": "omitted" if (mode == "row" and te == ts) else "given"}
+            level = f"degenerate_{mode}"
+            lib, err, eff = [], None, None
+            del STEP_LOG[:]
+            try:
+                if mode in ("split", "row"):
+                    agent = world.agent(pos, vel)
+                    for _ in range(CI_STEPS):
+                        t_k = float(agent.time)
+                        # Scenario.stepForward: start <= t_k+dt and end > t_k (a zero-length event is handed over once)
+                        if ts <= t_k + dt and te > t_k:
+                            eff = _make_event(agent, spec, ts, te, "direct" if mode == "split" else "row", start)
+                        agent.prunePropagateEvents()
+                        lib.append(_step_agent(agent))
+                    out_times = times
+                else:
+                    dyn = world.agent(pos, vel).dynamics
+                    evs = [_thrust_obj(spec, ts, te, aid)]
+                    WATCHDOG.reset()
+                    if mode == "one_call":
+                        out = dyn.propagate(ScenarioTime(0.0), ScenarioTime(t_final), y0.copy(), scheduled_events=evs)
+                        lib, out_times = [np.array(out, dtype=float)], [t_final]
+                    else:
+                        out = np.array(dyn.propagateBulk([ScenarioTime(0.0)] + [ScenarioTime(t) for t in times],
+                                                         y0[:, None].copy(), scheduled_events=evs), dtype=float)
+                        if out.shape != (6, 1, CI_STEPS):
+                            raise AssertionError(f"propagateBulk returned shape {out.shape}")
+                        lib, out_times = [out[:, 0, k] for k in range(CI_STEPS)], times
+            except PropagationStall as exc:
+                err = str(exc)
+            except Exception as exc:  # noqa: BLE001
+                err = f"{type(exc).__name__}: {exc}"
+            EventStack.logAndFlushEvents()
+            if err is not None:
+                res.case(f"{level}/interval", case, False, nontrivial=True,
+                         signature=f"C15/{level}/interval/{MODELS[model]}/{region}/error", observed=err[:300],
+                         expected="propagates", outcome="error", item=item)
+                res.observe(err[:80])
+                continue
+            if mode == "row" and te == ts:
+                # the event row of a configuration without end_time ends when it starts (to the last bit: both come from
+                # the same datetime through the same Julian-date conversion)
+                res.case(f"{level}/zero_length_row", case, eff is not None and eff[0] == eff[1], nontrivial=True,
+                         signature=f"C15/{level}/zero_length_row", observed=list(eff) if eff else None,
+                         expected="end_time == start_time", item=item)
+            eff_burns = [(eff[0], eff[1], spec)] if (mode == "row" and eff) else burns
+            _classify(res, level, level, model, case, lib, out_times, y0, gravity, burns, eff_burns,
+                      dt if mode in ("split", "row") else t_final, item=item, nontrivial=True, coast=coast,
+                      region=region, ref=ref)
+            res.states += len(out_times) + 1
+            res.transitions += len(out_times)
             res.traces += 1
 
 
@@ -2186,6 +2629,12 @@ def run_item(item):
         _run_protocol_ci(res, item)
     elif kind == "protocol_ci2":
         _run_protocol_ci2(res, item)
+    elif kind == "protocol_ci3":
+        _run_protocol_ci3(res, item)
+    elif kind == "protocol_z2":
+        _run_protocol_z2(res, item)
+    elif kind == "degenerate":
+        _run_degenerate(res, item)
     elif kind == "columns2":
         _run_columns2(res, item)
     elif kind == "scenario_ci":
